@@ -89,6 +89,17 @@ def run(ctx, model):
                 tr.run_case(ctx, model, lines, pend, "single-fault-sweep-with", "C10", scn, "10.0.0.1/bp/0", False, faults,
                             [b"\x22" * 8, b"\x33" * 8], repw,
                             check=lambda impl, case, policy=policy, faults=faults: oracle(ctx, impl, case, policy, faults))
+    # the same discipline for the SLC driver object (it passes its own constructor arguments down to CIPDriver): session,
+    # Forward Open kinds in order and with the sizes of the property, state after close — every target policy, no fault
+    # and every single-fault position of the first connection
+    from pycomm3 import SLCDriver
+    for policy in [(True, True, True), (True, False, True), (True, False, False), (False, True, True)]:
+        scn, _, _ = tr.gen_base(rng, policy=policy, generic=(0, (), b"\x01\x02"))
+        plans = [{}] + [{(kind, k): how} for k in range(0, 6) for kind, how in (("send", "raise"), ("recv", "raise"))]
+        for faults in plans:
+            tr.run_case(ctx, model, lines, pend, "slc-driver-object", "C10", scn, "10.0.0.1/bp/0", False, faults,
+                        [b"\x22" * 8, b"\x33" * 8], rep, driver_cls=SLCDriver,
+                        check=lambda impl, case, policy=policy, faults=faults: oracle(ctx, impl, case, policy, faults))
     run_real_socket(ctx, model)
     tr.run_altered_client(ctx, model, lines, pend, "C10", n=ctx.budget(30, 300))
     ctx.extra["exhaustive_subdomains"] = "every single-fault position (send raises / message lost / receive raises) x 4 target policies of a 7-call representative history"
